@@ -143,6 +143,10 @@ def run_case(case):
             if got.shape != want.shape or not np.allclose(got, want, rtol=1e-4 if f32 else 1e-9, atol=1e-6 if f32 else 1e-12):
                 return fail(sig, nontrivial, "C19.schedule", f"call {idx}: the recomputation did not receive the normalised "
                             "Gramian of the current matrix", got, want)
+        if max_norm > 0:
+            nout = float(np.linalg.norm(np64(out)))
+            if nout > max_norm * (1 + (1e-5 if f32 else 1e-6)):
+                return fail(sig, nontrivial, "C19.maxnorm", f"|output| exceeds max_norm = {max_norm}", nout, max_norm)
         if len(inst.weights) != n_w + 1:
             raise AssertionError("forward hook did not fire exactly once")
         alpha = inst.solves[-1][1]
@@ -156,10 +160,6 @@ def run_case(case):
             return fail(sig, nontrivial, "C19.schedule" if recompute else "C19.reuse",
                         f"call {idx} ({'recompute' if recompute else 're-use'} step): returned weights are not the stored "
                         "weights (rescaled to max_norm)", w, exp_w)
-        if max_norm > 0:
-            nout = float(np.linalg.norm(np64(out)))
-            if nout > max_norm * (1 + (1e-5 if f32 else 1e-6)):
-                return fail(sig, nontrivial, "C19.maxnorm", f"|output| exceeds max_norm = {max_norm}", nout, max_norm)
         seg_word += ch
         seg_outs.append(out.detach().clone())
         idx += 1
